@@ -15,7 +15,7 @@ def factory():
 
 
 def run(tier, seed):
-    res = run_generic("C01", tier, seed, factory, WIT, RULE)
+    res = run_generic("C01", tier, seed, factory, WIT, RULE, layouts=True)
     # whole runs: every scenario family of the run-loop and event properties (orders rewritten by rules and shocks,
     # high-frequency agents, halts, index markets), the statement evaluated on every matching round of every execution
     from ._r import run_whole_runs
